@@ -191,8 +191,17 @@ class PathExplorer:
             if st["k"] == "assign" and not st["lhs"]["p"] and st["rv"]["r"] == "agg" and st["rv"].get("ak") == "adt" and \
                     st["rv"].get("adt") in ("std::result::Result", "std::option::Option", "std::ops::ControlFlow"):
                 v = st["rv"]["vidx"]
-                facts = frozenset(f for f in facts if not (f[0] == "d" and f[1] in (("agg", bb, ()), ("local", st["lhs"]["l"], ())))) | \
+                wrap = "as " + str(st["rv"].get("variant"))
+                facts = frozenset(f for f in facts if not (f[0] == "d" and f[1][:2] in (("agg", bb), ("local", st["lhs"]["l"])))) | \
                     {("d", ("agg", bb, ()), v), ("d", ("local", st["lhs"]["l"], ()), v)}
+                # `Ok(x)` / `Some(x)` where x's own variant is known on this path (`Ok(None)`, `Ok(Some(..))`): remember it as the
+                # variant of the payload, so that a later `match r? { None => .., Some(..) => .. }` stays decided
+                if len(st["rv"].get("ops", [])) == 1:
+                    pp = op_place(st["rv"]["ops"][0])
+                    if pp is not None and not pp["p"]:
+                        for f0 in list(facts):
+                            if f0[0] == "d" and f0[1] == ("local", pp["l"], ()):
+                                facts = facts | {("d", ("agg", bb, (wrap, ".0")), f0[2]), ("d", ("local", st["lhs"]["l"], (wrap, ".0")), f0[2])}
         if bb in self.ok_blocks:
             ret = "ok"
         elif bb in self.err_blocks:
@@ -230,6 +239,10 @@ class PathExplorer:
                             if "std::option::Option<" in ty.split(",")[0]:
                                 v = 1 - v   # None(0)->Break(1), Some(1)->Continue(0)
                             facts = facts | {("d", ("call", bb, ()), v)}
+                    # the payload's variant, when known, is the variant of `Continue`'s payload
+                    for f in list(facts):
+                        if f[0] == "d" and f[1][:2] == K[:2] and f[1][2] in (K[2] + ("as Ok", ".0"), K[2] + ("as Some", ".0")):
+                            facts = facts | {("d", ("call", bb, ("as Continue", ".0")), f[2])}
             if c.decl == "std::iter::Iterator::next":
                 from engine import PASS_THROUGH
                 el = self._flatten_elems(c.args[0])
